@@ -8,12 +8,16 @@ import (
 	"bytes"
 	"errors"
 	"io"
+	"time"
+
+	"github.com/influxdata/influxdb/models"
 )
 
 func init() {
 	vRegister("VerifHarness_C15_ReadLV", VerifHarness_C15_ReadLV)
 	vRegister("VerifHarness_C15_TLVRoundTrip", VerifHarness_C15_TLVRoundTrip)
 	vRegister("VerifHarness_C15_DecodeLV", VerifHarness_C15_DecodeLV)
+	vRegister("VerifHarness_C15_WriteShardArbitraryPoints", VerifHarness_C15_WriteShardArbitraryPoints)
 }
 
 // vStream is an io.Reader over an arbitrary byte string that may deliver short reads and records
@@ -114,6 +118,111 @@ func VerifHarness_C15_TLVRoundTrip() {
 	vObserve("typ", t2)
 	vObserve("payload", b2)
 	vReach("C15.tlv.end")
+}
+
+// --- K3: a write request whose envelope is valid but whose points are arbitrary bytes
+
+type vC15Store struct {
+	TSDBStore // unimplemented methods panic if reached
+	writes    int
+	gotNil    bool
+	npoints   int
+	notFound  bool
+}
+
+func (s *vC15Store) WriteToShard(shardID uint64, points []models.Point) error {
+	s.writes++
+	s.npoints = len(points)
+	for _, p := range points {
+		if p == nil {
+			s.gotNil = true
+		}
+	}
+	return nil
+}
+
+func (s *vC15Store) CreateShard(database, policy string, shardID uint64, enabled bool) error {
+	return nil
+}
+
+var vC15ReqModel *WriteShardRequest
+
+// vC15Request renders a write-shard request (native: the real protobuf encoding).
+func vC15Request(shard uint64, points [][]byte) []byte {
+	var r WriteShardRequest
+	r.SetShardID(shard)
+	r.SetDatabase("db")
+	r.SetRetentionPolicy("rp")
+	r.SetBinaryPoints(points)
+	b, err := r.MarshalBinary()
+	if err != nil {
+		panic(err)
+	}
+	return b
+}
+
+// engine-side models: the protobuf envelope is handed over as a struct
+func vC15RequestModel(shard uint64, points [][]byte) []byte {
+	r := &WriteShardRequest{}
+	r.SetShardID(shard)
+	r.SetDatabase("db")
+	r.SetRetentionPolicy("rp")
+	r.SetBinaryPoints(points)
+	vC15ReqModel = r
+	return []byte{1}
+}
+
+func vC15UnmarshalRequest(w *WriteShardRequest, buf []byte) error {
+	w.pb = vC15ReqModel.pb
+	return nil
+}
+
+// processWriteShardRequest with 1..2 binary points of arbitrary bytes: the node does not crash,
+// the store never sees a nil point, and an undecodable point is answered with an error.
+func VerifHarness_C15_WriteShardArbitraryPoints() {
+	n := vLen("points", 1, 2)
+	var raw [][]byte
+	for i := 0; i < n; i++ {
+		if vBool("structuredPoint") {
+			// well-formed frame (1-byte key, 0..4 arbitrary field bytes, valid timestamp):
+			// reaches the field iterator with arbitrary field text
+			tb, _ := time.Unix(0, 1700000000000000000).UTC().MarshalBinary()
+			fields := vBytes("fields", vLen("fieldsLen", 0, 4))
+			p := []byte{0, 0, 0, 1, vByte("key"), 0, 0, 0, byte(len(fields))}
+			p = append(p, fields...)
+			p = append(p, tb...)
+			raw = append(raw, p)
+		} else {
+			raw = append(raw, vBytes("point", vLen("pointLen", 0, 9)))
+		}
+	}
+	decodable := true
+	for _, b := range raw {
+		if _, err := models.NewPointFromBytes(append([]byte(nil), b...)); err != nil {
+			decodable = false
+		}
+	}
+	st := &vC15Store{}
+	s := NewService(Config{})
+	s.TSDBStore = st
+	buf := vC15Request(7, raw)
+	panicked := true
+	var err error
+	func() {
+		defer func() { recover() }()
+		err = s.processWriteShardRequest(buf)
+		panicked = false
+	}()
+	vAssert(!panicked, "C15.write-request-no-panic")
+	// known finding C15-F2: an undecodable point is logged and passed on as a nil Point
+	vAssertKF(!st.gotNil, "C15.store-never-receives-a-nil-point", !decodable, "C15-F2")
+	if !decodable {
+		vAssertKF(err != nil, "C15.undecodable-point-is-answered-with-an-error", true, "C15-F2")
+	} else {
+		vAssert(err == nil && st.writes == 1 && st.npoints == n, "C15.decodable-points-are-written")
+	}
+	vObserve("decodable", decodable)
+	vReach("C15.writeshard.end")
 }
 
 type vUnmarshalRec struct {
